@@ -63,6 +63,12 @@ def run(rep, work, tier, seed, only=None):
                                                         % (bad, ob['batch_le'][bad], ob['cases'][bad]['le']))),
                           {'instance': key, 'error': {'x': ob['cases'][bad]['x'], 'z': ob['cases'][bad]['z']},
                            'what': 'batch row differs', 'stack': [[o['x'], o['z']] for o in ob['cases']]})
+        if ob.get('run_once_diff'):
+            d = ob['run_once_diff'][0]
+            rep.violation(dict(key, site='run_once'),
+                          '%s: a trial whose residual error is X%s Z%s is recorded by run_once as %s; the code object says %s about that error'
+                          % (rec['tag'], d['x'], d['z'], d['run_once'], d['code_object']),
+                          {'instance': key, 'error': {'x': d['x'], 'z': d['z']}, 'what': 'run_once with scripted noise and zero correction', 'detail': d})
         if ob.get('form_diff'):
             d = ob['form_diff'][0]
             rep.violation(dict(key, site='argument-form'),
